@@ -363,7 +363,7 @@ class Model:
             name=m.name,  # the exported frame carries the table name and Table(df) picks it up
             visible=[(n, mp[t]) for n, t in m.visible],
             scope=[mp[t] for t in vis_toks],
-            grouping=[],
+            grouping=[mp[t] for t in m.grouping if t in mp],  # the grouping state survives collect (visible columns)
             opaque=frozenset(mp[t] for t in m.opaque if t in mp),
             padded=frozenset(lin_map.get(p, p) for p in m.padded),
             rowid=tuple(mp[t] for t in m.rowid) if (m.rowid is not None and all(t in mp for t in m.rowid)) else None,
